@@ -72,6 +72,10 @@ class Lines:
             s = st[bb]
             t = f.term(bb)
             out = s
+            # a direct write of the generator's line (`self.current_line = span.start_line`, set_line written out) sets it
+            if any(st_["k"] == "assign" and "current_line" in flow._proj_names(st_["place"])
+                   and self.is_self(f, {"cp": {"l": st_["place"]["l"]}}) for st_ in f.stmts(bb)):
+                s = out = FRESH
             if t["k"] == "call":
                 c = next((k for k in f.calls() if k.bb == bb), None)
                 if c is not None and c.args and self.is_self(f, c.args[0]):
